@@ -28,6 +28,7 @@ RULE = (
     'modified ancestor, or >=2 new shared values one referencing the other, or a callable swap '
     'together with a tag change.'
 )
+RULE += (' ' + 'Round 3: template symbols (objects of __main__ with nested qualnames, two modules with the same last name).')
 ASSUMPTIONS = [
     'if apply_diff itself raises for a diff, the case is skipped and counted (C10 owns that failure)',
     'formatting of the emitted text is not judged',
